@@ -44,7 +44,7 @@ func buildFormat(ds []Dir) string {
 }
 
 var errorKinds = map[string]bool{"goerr": true, "error": true, "wraperr": true, "errfmt": true, "errsafefmt": true,
-	"errstr": true, "hookerr": true, "nilerror": true, "typednilerr": true}
+	"errstr": true, "hookerr": true, "nilerror": true, "typednilerr": true, "maperror": true}
 
 func holdsError(v *Val) bool {
 	// "possibly wrapped in Safe/Unsafe": one wrapper, as printArg removes
@@ -203,7 +203,7 @@ func (g *gen) opC15() Op {
 				return Val{K: "typednilerr"}
 			}
 		}
-		switch g.r.Intn(9) {
+		switch g.r.Intn(10) {
 		case 0:
 			return Val{K: "goerr", ID: g.id(), S: Str(g.payload())}
 		case 1:
@@ -230,6 +230,9 @@ func (g *gen) opC15() Op {
 			return Val{K: "unsafe", V: []Val{g.scripted("error", 1)}}
 		case 7:
 			return Val{K: "nilerror", ID: g.id()}
+		case 8:
+			// an error of an uncomparable (map) type
+			return g.scripted("maperror", 1)
 		default:
 			return g.scripted("hookerr", 1)
 		}
@@ -301,10 +304,18 @@ func (g *gen) opC15() Op {
 		if g.chance(0.25) {
 			d.Wid = strconv.Itoa(1 + g.r.Intn(12))
 		}
+		starred := false
+		if g.chance(0.12) && argNum < len(args) {
+			// a '*' width: consumes an int operand before the verb's own
+			d.Wid = "*"
+			args[argNum] = Val{K: "int", I: int64(g.r.Intn(9))}
+			argNum++
+			starred = true
+		}
 		if g.chance(0.15) {
 			d.Prec = "." + strconv.Itoa(g.r.Intn(5))
 		}
-		if g.chance(0.2) {
+		if g.chance(0.2) && !starred {
 			d.Idx = 1 + g.r.Intn(nArgs+1) // may be one past the end: BADINDEX
 		}
 		// the generator's knowledge of which operand is consumed
